@@ -17,7 +17,8 @@ from bert_e import exceptions
 from bert_e.job import APIJob, PullRequestJob, handler
 from bert_e.workflow.git_utils import clone_git_repo, push
 from bert_e.workflow.gitwaterflow.branches import (branch_factory,
-                                                   build_queue_collection)
+                                                   build_queue_collection,
+                                                   QueueBranch)
 
 
 LOG = logging.getLogger(__name__)
@@ -52,10 +53,12 @@ def rebuild_queues(job: RebuildQueuesJob):
     if not queue_branches:
         raise exceptions.JobSuccess()
 
-    branch_factory(
-        repo,
-        'development/{}'.format(queue_branches[0].version)
-    ).checkout()
+    # move away from the branches about to be deleted: checkout the
+    # destination branch (development, stabilization or hotfix) of the
+    # first queue
+    QueueBranch(
+        repo, 'q/{}'.format(queue_branches[0].version)
+    ).dst_branch.checkout()
 
     for branch in queue_branches:
         branch.remove(do_push=False)
